@@ -275,3 +275,22 @@ Print Assumptions C03_pb_getitem_adjoint.
 Print Assumptions C03_pb_transpose_gather_adjoint.
 Print Assumptions C03_pb_reshape_adjoint.
 Print Assumptions C03_scatter_add_uniq.
+
+(* ---- broadcasting (Bcast.v, BcastSpec.v): an operand of shape s used in an elementwise operation with broadcast result shape o is read
+   through the index list bcast_idx s o, which is in range whenever s is compatible with o (and the broadcast shape computed by bshape is
+   compatible with both operands); hence "sum the adjoint over the broadcast axes" - the scatter-add along the same list - is the adjoint *)
+From AlgoV Require Import Bcast BcastSpec.
+Theorem C03_bcast_idx_ok (s o : shape) : bcompat s o ->
+  size (bcast_idx s o) = nelem o /\ all (fun k => (k < nelem s)%N) (bcast_idx s o).
+Proof. exact: bcast_idx_ok. Qed.
+Theorem C03_pb_broadcast_adjoint (R : comRingType) (s o : shape) (x zbar : seq R) : bcompat s o -> size x = nelem s -> size zbar = nelem o ->
+  dotp (gatherV (bcast_idx s o) x) zbar = dotp x (scatter_add (bcast_idx s o) zbar (nelem s)).
+Proof. exact: pb_broadcast_adjoint. Qed.
+Theorem C03_bcast_idx_same (s : shape) : bcast_idx s s = iota 0 (nelem s).
+Proof. exact: bcast_idx_same. Qed.
+Theorem C03_bshape_compat (s1 s2 o : shape) : bshape s1 s2 = Some o -> bcompat s1 o /\ bcompat s2 o.
+Proof. exact: bshape_compat. Qed.
+Print Assumptions C03_bcast_idx_ok.
+Print Assumptions C03_pb_broadcast_adjoint.
+Print Assumptions C03_bcast_idx_same.
+Print Assumptions C03_bshape_compat.
